@@ -27,6 +27,17 @@ Theorem C18_never_mixed : forall frs ps last w,
   snd (vfeed ps last frs) = Some w -> exists vs, single_version vs = Some w.
 Proof. exact never_mixed. Qed.
 
+(* an undisturbed fetch (the controller holds one version in [total] fragments throughout) always
+   ends with THAT version, within 2 * total exchanges, whatever stale fragments -- of earlier
+   versions, of other totals, left by failed, abandoned or overtaken transfers -- the zone held *)
+Theorem C18_undisturbed_fetch_completes : forall ps total v, ps <> [] -> 1 <= total ->
+  exists n, fetch ps total v = Got v n /\ n <= 2 * total.
+Proof. exact fetch_completes. Qed.
+Theorem C18_fetch_examples :
+  fetch [Some 1; Some 1; Some 1] 3 2 = Got 2 3 /\ fetch [Some 1; Some 1; Some 1] 1 2 = Got 2 1 /\
+  fetch [None] 4 7 = Got 7 4 /\ fetch [Some 1; Some 1; None] 3 3 = Got 3 4.
+Proof. exact fetch_examples. Qed.
+
 (* regression witness: the fetch before the repair leaked the lock *)
 Theorem C18_lock_leak_refuted :
   transfers false None [(0, [Proceed; Raises]); (1, [Proceed; Proceed; Proceed])] = (Some 0, [Failed; LockTimeout]).
